@@ -257,3 +257,91 @@ def gen_hydro(trees):
     out += 'Definition squash_self_loops : bool := %s.\n' % ('true' if self_loops else 'false')
     out += 'Definition squash_concat_attrs : list pystr := [%s].\n' % '; '.join(coq_str(a) for a in names)
     return out
+
+
+# ---------------------------------------------------------------------------------------------------------------
+# HydroCutGen: what the IMPLEMENTATION reads and builds for one worked description with shared atoms (one atom shared
+# by three fragments plus an ordinary cut bond), written with `!`, with `$`, and as the molecule's own cut.  Recorded
+# by running /repo; theories/Hydro/ShareCutImpl.v decides the hypotheses of C10_share_vs_cut_resolver_full on these
+# dictionaries and compares the model's graphs with the recorded ones.  Fail closed: if a run raises or a graph
+# changes, the generated file disappears / the examples stop compiling.
+CUT_EXAMPLE = {
+    'bang': "{[#A][#B][#E][#F]}.{#A=CC[!s],#B=C[!s][!t]O,#E=C[!t]N[$c],#F=C[$c]}",
+    'dollar': "{[#A][#B][#E][#F]}.{#A=CC[$s],#B=C[$s][$t]O,#E=C[$t]N[$c],#F=C[$c]}",
+    'plain': "{[#A]([#B])[#E][#F]}.{#A=CC[$a][$b],#B=O[$a],#E=N[$b][$c],#F=C[$c]}",
+}
+
+_CUT_PROBE = r'''
+import copy, json, sys
+sys.path.insert(0, %r)
+import lit
+from cgsmiles.resolve import MoleculeResolver
+ex = %r
+out = {}
+for key, text in ex.items():
+    r = MoleculeResolver.from_string(text)
+    fd = r.fragment_dicts[0]
+    rec = {'fd': lit.lst([lit.pair(lit.s(nm), lit.nxgraph(g)) for nm, g in fd.items()]),
+           'base': lit.nxgraph(copy.deepcopy(r.molecule))}
+    o1 = r.edges_from_bonding_descrpt
+    o2 = r.squash_atoms
+    def w1(all_atom=True, o1=o1, r=r, rec=rec):
+        o1(all_atom=all_atom)
+        rec['aa'] = bool(all_atom)
+        rec['m2'] = lit.nxgraph(copy.deepcopy(r.molecule))
+    def w2(o2=o2, r=r, rec=rec):
+        o2()
+        rec['sq'] = lit.nxgraph(copy.deepcopy(r.molecule))
+    r.edges_from_bonding_descrpt = w1
+    r.squash_atoms = w2
+    r.resolve()
+    for k in ('aa', 'm2', 'sq'):
+        if k not in rec:
+            raise SystemExit('resolve() of %%r did not reach %%s' %% (text, k))
+    out[key] = rec
+print(json.dumps(out))
+'''
+
+
+def probe_cut_example():
+    here = os.path.dirname(os.path.abspath(__file__))
+    code = _CUT_PROBE % (here, CUT_EXAMPLE)
+    env = dict(os.environ)
+    repo = env.get('CGV_REPO', '/repo')
+    env['PYTHONPATH'] = repo + (os.pathsep + env['PYTHONPATH'] if env.get('PYTHONPATH') else '')
+    env.setdefault('PBR_VERSION', '0.0.0')
+    try:
+        import pysmiles  # noqa: F401
+        exe = sys.executable
+    except ImportError:
+        exe = '/venv/bin/python'
+    try:
+        p = subprocess.run([exe, '-W', 'ignore', '-c', code], stdout=subprocess.PIPE, stderr=subprocess.PIPE,
+                           text=True, timeout=120, env=env, cwd=here)
+    except (OSError, subprocess.TimeoutExpired) as exc:
+        raise Unsupported('cannot run the implementation on the shared-atom example: %s' % exc)
+    if p.returncode != 0:
+        raise Unsupported('the implementation failed on the shared-atom example: %s' % p.stderr[-500:])
+    line = [l for l in p.stdout.splitlines() if l.startswith('{')]
+    if not line:
+        raise Unsupported('no answer from the shared-atom example probe')
+    return json.loads(line[-1])
+
+
+@_target('HydroCutGen', ['cgsmiles/resolve.py', 'cgsmiles/read_fragments.py', 'cgsmiles/read_cgsmiles.py',
+                          'cgsmiles/pysmiles_utils.py'])
+def gen_hydro_cut(trees):
+    pr = probe_cut_example()
+    out = 'From CGV Require Import Base.NxGraph.\nOpen Scope Z_scope.\n\n'
+    out += ('(* recorded by RUNNING the implementation (MoleculeResolver.from_string / resolve) on one description with\n'
+            '   shared atoms: the fragment dictionary and the base graph as read, the fine graph right after\n'
+            '   edges_from_bonding_descrpt and right after squash_atoms *)\n')
+    for key in ('bang', 'dollar', 'plain'):
+        rec = pr[key]
+        out += 'Definition cutex_%s_string : pystr := %s.\n' % (key, coq_str(CUT_EXAMPLE[key]))
+        out += 'Definition cutex_%s_fd : list (pystr * graph) := %s.\n' % (key, rec['fd'])
+        out += 'Definition cutex_%s_base : graph := %s.\n' % (key, rec['base'])
+        out += 'Definition cutex_%s_aa : bool := %s.\n' % (key, 'true' if rec['aa'] else 'false')
+        out += 'Definition cutex_%s_bonded : graph := %s.\n' % (key, rec['m2'])
+        out += 'Definition cutex_%s_squashed : graph := %s.\n\n' % (key, rec['sq'])
+    return out
